@@ -51,6 +51,13 @@ def main():
     mod, fn = CHECKS[a.prop]
     try:
         m = importlib.import_module(mod)
+        if a.replay and mod not in ("p_engine", "p_calls"):
+            # these checks are deterministic functions of (tier, seed): replaying = re-running with the recorded ones
+            import json
+            rec = json.load(open(a.replay))
+            os.environ["VERIF_SEED"] = str(rec.get("seed", 1))
+            print(f"replay of {a.replay}: re-running {a.prop} at tier={rec.get('tier', 'quick')} seed={rec.get('seed', 1)}")
+            return getattr(m, fn)(rec.get("tier", "quick"), int(rec.get("seed", 1)), None)
         return getattr(m, fn)(a.tier, seed(), a.replay)
     except Machinery as e:
         print(f"MACHINERY-FAILURE {a.prop}: {e}")
